@@ -5,8 +5,10 @@ Events (also the tokens of the Lean driver op `c16`):
   a:<k>        response of set-up kind k (position in SETUP_FRAME_TYPES) built from payload bytes
   w:<ms>       advance the clock (ignored if it would reach the pending timer)
   t            advance the clock to the pending timer(s) and let them fire
+  v:<k.k|->    a regulator-data message whose frame-versions table names the requests of these set-up kinds
 Observed per event:  X:<k>:<t ms> request of kind k put on the write queue (sorted by k),
                      L:<t ms>:<e.e.e|-> 'loaded' dispatched, with device.data['frame_errors'] as kind positions
+                     V:<k>:<t ms> request of kind k put on the write queue while a frame-versions table was handled
 """
 import asyncio
 from asyncio import events
@@ -18,6 +20,7 @@ import setm
 use_repo()
 from pyplumio.const import DeviceType  # noqa: E402
 from pyplumio.devices.ecomax import EcoMAX, SETUP_FRAME_TYPES  # noqa: E402
+from pyplumio.frames.messages import RegulatorDataMessage  # noqa: E402
 from pyplumio.frames.responses import (  # noqa: E402
     AlertsResponse,
     MixerParametersResponse,
@@ -72,6 +75,8 @@ class SetupRig:
         self.loaded_seen = False
         self.loaded_at = None
         self.tx = [0] * N
+        self.vtx = [0] * N
+        self.in_versions = False
         self.extra = []
 
         async def on_loaded(value):
@@ -112,12 +117,16 @@ class SetupRig:
             ft = int(f.frame_type)
             if ft in REQ_TYPES and int(f.recipient) == int(DeviceType.ECOMAX):
                 k = REQ_TYPES.index(ft)
-                self.tx[k] += 1
-                out.append((k, t))
+                if self.in_versions:
+                    self.vtx[k] += 1
+                    out.append((100 + k, t))
+                else:
+                    self.tx[k] += 1
+                    out.append((k, t))
             else:
                 self.extra.append(f"{type(f).__name__}@{t}")
                 out.append((99, t))
-        out = [f"X:{k}:{t}" for k, t in sorted(out)]
+        out = [f"X:{k}:{t}" if k < 100 else f"V:{k - 100}:{t}" for k, t in sorted(out)]
         if not self.loaded_seen and "loaded" in self.device.data:
             self.loaded_seen = True
             errs = self.errors()
@@ -143,6 +152,17 @@ class SetupRig:
             nt = loop.next_timer()
             if nt is not None:
                 loop.settle(until=nt)
+        elif p[0] == "v":
+            ks = [] if p[1] == "-" else [int(x) for x in p[1].split(".")]
+            table = b"".join(bytes([REQ_TYPES[k], 1, 0]) for k in ks if k < N)
+            # [_, _, regdata version 1.0, frame-versions table, regulator data (decoded only if a schema is known)]
+            msg = bytes([0x62, 0x64, 0x00, 0x01, len(table) // 3]) + table + bytes(8)
+            self.in_versions = True
+            self.device.handle_frame(RegulatorDataMessage(sender=DeviceType.ECOMAX, message=bytearray(msg)))
+            loop.settle()
+            out = self.drain()
+            self.in_versions = False
+            return out
         else:
             raise ValueError(ev)
         loop.settle()
@@ -151,7 +171,7 @@ class SetupRig:
     def summary(self):
         present = "".join("1" if n in self.device.data else "0" for n in NAMES)
         errs = self.errors()
-        return dict(now=self.now(), present=present, tx=list(self.tx),
+        return dict(now=self.now(), present=present, tx=list(self.tx), vtx=list(self.vtx),
                     loaded_at=self.loaded_at if self.loaded_seen else None,
                     errors=errs if self.loaded_seen else None,
                     task_done=self.task.done(),
